@@ -248,6 +248,7 @@ func evalUpload(w wUp) kit.Result {
 	case !w.Known && w.Size > smallLimit && !big:
 		return kit.Bad("descriptor-kind", "stream of %d bytes (> 10 MiB) uploaded as a small file", w.Size)
 	}
+	carriesN := false
 	for id := 0; id < n; id++ {
 		st := m.parts[id]
 		if st.big != big {
@@ -258,6 +259,7 @@ func evalUpload(w wUp) kit.Result {
 			short := id == n-1 && (P != 0 && st.n < P || P == 0 && psIndex(st.n) < 0)
 			switch {
 			case st.total == n:
+				carriesN = true
 			case !w.Known && st.total == -1 && !short:
 				// total not known yet when this part was handed out
 			default:
@@ -282,6 +284,9 @@ func evalUpload(w wUp) kit.Result {
 	}
 	if n == 0 {
 		out += "/empty"
+	} else if big && !carriesN {
+		// stream whose length is a multiple of the part size: the end is discovered after the last part was sent
+		out += "/count-never-sent"
 	}
 	return kit.OKo(out)
 }
